@@ -64,6 +64,8 @@ class StmtMixin:
     def st_FunctionDef(self, node, fr):
         fr.locals[node.name] = SV(None, Ty("callable"), ("closure", node, fr, fr.module))
 
+    st_AsyncFunctionDef = st_FunctionDef      # a nested coroutine function: calling it is followed like a call (see ev_Await)
+
     def st_Assert(self, node, fr):
         c = self.truthy(self.ev(node.test, fr))
         self.raise_if(z3.Not(c), "AssertionError", "assert " + ast.unparse(node.test)[:50])
